@@ -473,6 +473,15 @@ def _as_constant_array(t: Union["Tensor", np.ndarray]) -> np.ndarray:
     return t
 
 
+def _own_arg(arg):
+    """Returns a copy of a mutable (list or array) operation-argument."""
+    if isinstance(arg, np.ndarray):
+        return arg.copy()
+    if isinstance(arg, list):
+        return list(arg)
+    return arg
+
+
 class Tensor:
     """A numpy-array-like object capable of serving as a node in a computational
     graph that supports back-propagation of derivatives via the chain rule.
@@ -1157,6 +1166,12 @@ class Tensor:
 
         if op_kwargs is None:
             op_kwargs = {}
+
+        # The arguments are part of the recorded operation (they are kept for
+        # back-propagation and for replaying view-ops): mutable ones are copied so
+        # that the caller can re-use its lists / arrays afterwards
+        op_args = tuple(_own_arg(arg) for arg in op_args)
+        op_kwargs = {key: _own_arg(arg) for key, arg in op_kwargs.items()}
 
         f = Op()
 
